@@ -637,7 +637,7 @@ M("c16-corner-touch-along-side", "C16", "cola/libavoid/geometry.cpp",
 M("c17-g-diagonal-left-out", "C17", "cola/libcola/colafd.cpp",
   "                G[i][j]=0;\n                continue;", "                continue;", mention=["IDEAL-DISTANCES", "diagonal"])
 M("c01-solver-keeps-active", "C01", "cola/libvpsc/solve_VPSC.cpp",
-  "        c->active = false;\n    }\n    bs=new Blocks(vs);", "    }\n    bs=new Blocks(vs);", mention=["SOLVER-TAKES-OVER"])
+  "        c->active = false;\n        // Likewise a flag", "        // Likewise a flag", mention=["SOLVER-TAKES-OVER"])
 M("c05-final-step-free", "C05", "cola/libavoid/makepath.cpp",
   "            if (atCostTarget && node.inf->id.isConnectionPin())", "            if (atCostTarget && (node.inf->id.isConnectionPin() || (node.inf == tar)))",
   mention=["FINAL-STEP-CHARGED"])
@@ -918,3 +918,5 @@ MUTANTS.append({"id": "c02-multipliers-in-single-precision", "prop": "C02", "exp
 M("c02-static-solver-keeps-stale-blocks", "C02", "cola/libvpsc/solve_VPSC.cpp",
   "    delete bs;\n    bs=new Blocks(vs);\n    for(unsigned i=0;i<m;i++) {\n        cs[i]->active=false;\n    }\n    list<Variable*> *vList=bs->totalOrder();", "    list<Variable*> *vList=bs->totalOrder();",
   mention=["STATIC-SOLVER-FRESH-START"])
+M("c10-junction-limits-at-old-position", "C10", "cola/libavoid/orthogonal.cpp",
+  "                Point pos = junction->recommendedPosition();", "                Point pos = junction->position();", mention=["JUNCTION-LIMITS-AT-MEETING-POINT"])
